@@ -64,6 +64,8 @@ fn harnesses(tier: Tier) -> Vec<Harness> {
 		// every remaining public read path against a block writer and against a header writer
 		Harness { bounds: (1, 1), name: "r1:api-sweep+block", universe: "forks", prelude: base5.clone(), threads: vec![("api", (0..API_N / 2).map(Op::Api).collect()), ("peer", vec![Op::B("m5")])] },
 		Harness { bounds: (1, 1), name: "r2:api-sweep+header+fork", universe: "forks", prelude: base5.clone(), threads: vec![("api", (API_N / 2..API_N).map(Op::Api).collect()), ("peer", vec![Op::H("m5"), Op::B("f5")])] },
+		// compaction against a block delivery (two threads; the three-thread version is e, thorough)
+		Harness { bounds: (1, 1), name: "e2:compact+block", universe: "long", prelude: vec!["*main"], threads: vec![("compactor", vec![Op::Compact]), ("peer", vec![Op::B("x91")])] },
 	];
 	if tier == Tier::Thorough {
 		v.push(Harness { bounds: (1, 1), name: "a2:reorg+reader", universe: "forks", prelude: vec!["B(m1)", "B(m2)", "B(m3)", "B(m4)", "B(m5)", "B(m6)", "B(f5)", "B(f6)"], threads: vec![("peer1", vec![Op::B("f7")]), ("reader", vec![Op::Read, Op::Unspent, Op::Read])] });
